@@ -310,7 +310,7 @@ func TestRandom(t *testing.T) {
 		Check:      checkSchema,
 		NonTrivial: rich,
 		Classes:    classes,
-		Quick:      1200, Thorough: 16000,
+		Quick:      1200, Thorough: 12000,
 	})
 }
 
@@ -322,7 +322,7 @@ func TestRandomEditions(t *testing.T) {
 		Check:      checkSchema,
 		NonTrivial: rich,
 		Classes:    classes,
-		Quick:      700, Thorough: 10000,
+		Quick:      700, Thorough: 8000,
 	})
 }
 
@@ -334,7 +334,7 @@ func TestRandomBig(t *testing.T) {
 		Check:      checkSchema,
 		NonTrivial: rich,
 		Classes:    classes,
-		Quick:      100, Thorough: 1600,
+		Quick:      100, Thorough: 1200,
 	})
 }
 
